@@ -437,3 +437,60 @@ def c12_r6(ctx):
         ctx.ob(f, not bad, "skip_to_quality() returns a count on every path", detail="; ".join(bad))
     if n < 12:
         raise AnalysisError("only %d skip_to_quality implementations of instantiable matchers" % n)
+
+
+@rule("C12", "R7", "K2", "a composite skip_to_quality loop skips while the bound is <= the threshold and cannot spin",
+      min_instances=4, also=("C05",),
+      clause="Matcher.skip_to_quality(q) moves to the next block whose quality is GREATER than q; the leaves skip while "
+             "block_quality() <= q.  Every loop in a skip_to_quality of whoosh/matching/binary.py that compares a quality bound "
+             "with the threshold (a) continues on <= (a composite that stops at equality is called again and again by a parent that "
+             "does not: DisjunctionMax over two unions never returned), and (b) has a way out when no sub-matcher moved -- a break "
+             "(or a step with next()) under a test of the skipped count -- because the sum tested by the loop and the difference "
+             "tested by the sub-matcher can disagree by floating-point rounding.")
+def c12_r7(ctx):
+    prog = ctx.prog
+    mod = prog.module("matching.binary")
+    n = 0
+    for c in sorted(prog.classes.values(), key=lambda k: k.qualname):
+        if c.module is not mod or "skip_to_quality" not in c.methods:
+            continue
+        f = c.methods["skip_to_quality"]
+        thr = f.params[1] if len(f.params) > 1 else "minquality"
+        for w in ast.walk(f.node):
+            if not isinstance(w, ast.While):
+                continue
+            cmps = [x for x in ast.walk(w.test) if isinstance(x, ast.Compare) and len(x.ops) == 1
+                    and thr in (norm.canon(x.left), norm.canon(x.comparators[0]))]
+            if not cmps:
+                continue
+            n += 1
+            ctx.saw(f)
+            x = cmps[0]
+            thr_right = norm.canon(x.comparators[0]) == thr
+            op = type(x.ops[0]).__name__
+            ok_a = (thr_right and op == "LtE") or ((not thr_right) and op == "GtE")
+            ctx.ob(f, ok_a, "the loop continues while the quality bound is <= the threshold",
+                   detail="" if ok_a else "`%s`: stops at equality although the contract (and every leaf) skips a block whose quality "
+                                         "equals the threshold; a parent that tests <= calls again for ever" % norm.canon(x),
+                   loc=ctx.nodeloc(f, x))
+            # names that receive a skip count in the body
+            counts = set()
+            for st in ast.walk(w):
+                if isinstance(st, (ast.Assign, ast.AugAssign)) and any(
+                        norm.call_name(cc) == "skip_to_quality" for cc in norm.calls_in(st.value)):
+                    for t in (st.targets if isinstance(st, ast.Assign) else [st.target]):
+                        if isinstance(t, ast.Name):
+                            counts.add(t.id)
+            ok_b = False
+            for st in ast.walk(w):
+                if isinstance(st, ast.If):
+                    tested = norm.names_in(st.test) & counts
+                    leaves = any(isinstance(y, ast.Break) for b_ in st.body for y in ast.walk(b_)) or \
+                        any(norm.call_name(cc) == "next" for b_ in st.body for cc in norm.calls_in(b_))
+                    if tested and leaves:
+                        ok_b = True
+            ctx.ob(f, ok_b, "the loop has a way out when no sub-matcher moved",
+                   detail="" if ok_b else "nothing in the body tests the count returned by the sub-matcher's skip_to_quality(): when the "
+                                         "sub-matcher sees nothing to skip the loop condition stays true", loc=ctx.nodeloc(f, w))
+    if n < 4:
+        raise AnalysisError("only %d composite skip_to_quality loops found in matching.binary" % n)
